@@ -103,4 +103,35 @@ theorem final_table_hold_specified_eval :
       show ¬ ((0:Rat) > 0) by grind, show ¬ ((1:Rat) < 1) by grind, show (0:Rat) < 1 by grind,
       show (0:Rat) ≤ 1 by grind, show ¬ ((1:Rat) = 0) by grind]
 
+/-- `3 * ParallelChannelPT(PointPT([(0, 1), (2, 3, 'linear')], ['A']) + AtomicMultiChannelPT(ConstantPT(2, {'A': 1}),
+ConstantPT(2, {'B': 2})), {'C': 5})`: point, atomic arithmetic, atomic multi channel, parallel channel and scalar
+arithmetic templates in one tree -/
+def newKindsWitness : PT :=
+  .arith none
+    (.parallel none
+      (.arithAtomic none
+        (.point none ["A"] [{ t := .lit 0, vs := [.lit 1], bcast := true, interp := .hold },
+                            { t := .lit 2, vs := [.lit 3], bcast := false, interp := .linear }] [] [])
+        false
+        (.atomicMulti none [.const none (.lit 2) [("A", .lit 1)] [], .const none (.lit 2) [("B", .lit 2)] []] none [] [])
+        [])
+      [("C", .lit 5)])
+    .times (.uniform (.lit 3)) false
+
+def newKindsCm : List (Chan × Option Chan) := [("A", some "A"), ("B", some "B"), ("C", some "C")]
+
+/-- the hypotheses of the `_partial` theorems hold for `newKindsWitness`, it denotes a pulse, and the closed forms
+evaluate (kernel evaluation, no compiler involved) -/
+theorem newKinds_eval :
+    supported newKindsWitness = true ∧ regular newKindsWitness (.dict []) = true ∧
+    keeps newKindsWitness newKindsCm = true ∧
+    (match denote newKindsWitness (.dict []) [] newKindsCm with
+     | .ok P => plIntegral (pulseVal P "A") == 18 && plEnd .last (pulseVal P "A") == some 12 && P.dur == 2
+     | .error _ => false) = true ∧
+    (match integralOf newKindsWitness (.dict []) "A", finalOf newKindsWitness (.dict []) "A",
+        pathTags .last newKindsWitness (.dict []) [] newKindsCm "A" with
+     | .ok i, .ok f, .ok tags => i == 18 && f == 12 && tags.isEmpty
+     | _, _, _ => false) = true := by
+  refine ⟨by decide, by decide, by decide, by decide +kernel, by decide +kernel⟩
+
 end QP.C07
